@@ -164,7 +164,7 @@ def line_check(op, out, rmap):
     base = out.split(" ORACLE[", 1)[0]
     if base in ("no-world", "PANIC") or op.startswith("names") or op.startswith("new names") or op == "fin":
         return "panic" if base == "PANIC" else None
-    base = re.sub(r" T=\S+$", "", base)
+    base = re.sub(r" T=.*$", "", base)
     parts = WORLD_SPLIT.split(base)
     if len(parts) != 4 or not parts[0].startswith("r="):
         return "malformed-line"
@@ -319,11 +319,12 @@ def run(ctx):
     rmap, _ = load_maps(table)
     quick = ctx.tier == "quick"
     diff_ffi(ctx, ["gen", "names"], "ffi.names", rmap, do_shrink=False)
-    diff_ffi(ctx, ["gen", "--exhaustive", 2 if quick else 3, "ps"], "ffi.ps.exhaustive", rmap)
-    diff_ffi(ctx, ["gen", "--exhaustive", 3 if quick else 4, "ev"], "ffi.ev.exhaustive", rmap)
-    diff_ffi(ctx, ["gen", "--seed", ctx.seed, "--cases", 250 if quick else 6000, "--len", 40 if quick else 70, "fixed"], "ffi.ps.fixed", rmap)
-    diff_ffi(ctx, ["gen", "--seed", ctx.seed + 1, "--cases", 250 if quick else 6000, "--len", 40 if quick else 70, "slice"], "ffi.ps.slice", rmap)
-    diff_ffi(ctx, ["gen", "--seed", ctx.seed + 2, "--cases", 250 if quick else 6000, "--len", 40 if quick else 70, "ev"], "ffi.ev", rmap)
+    # a case costs 6 node and 4 service creations (4 worlds): ~10 ms on an idle machine
+    diff_ffi(ctx, ["gen", "--exhaustive", 1 if quick else 3, "ps"], "ffi.ps.exhaustive", rmap)
+    diff_ffi(ctx, ["gen", "--exhaustive", 2 if quick else 4, "ev"], "ffi.ev.exhaustive", rmap)
+    diff_ffi(ctx, ["gen", "--seed", ctx.seed, "--cases", 120 if quick else 6000, "--len", 40 if quick else 70, "fixed"], "ffi.ps.fixed", rmap)
+    diff_ffi(ctx, ["gen", "--seed", ctx.seed + 1, "--cases", 120 if quick else 6000, "--len", 40 if quick else 70, "slice"], "ffi.ps.slice", rmap)
+    diff_ffi(ctx, ["gen", "--seed", ctx.seed + 2, "--cases", 80 if quick else 6000, "--len", 40 if quick else 70, "ev"], "ffi.ev", rmap)
     return core.finish(
         ctx, level="proof",
         rule="Part A: every `pub enum iox2_*_e` of iceoryx2-ffi/c/src/api/*.rs classified as error enum (name, IntoCInt target, IOX2_OK+1 convention), all variants, all "
@@ -332,7 +333,7 @@ def run(ctx):
              "config prefix and root; publish-subscribe with 8 payload types (size 1..128, alignment 1..64) fixed and as slices, 3 user header types, "
              "max publishers/subscribers 1..3, buffer 1..4, history, borrow limit, safe overflow on/off; loans within and beyond the limits, send, send_copy, receive, "
              "sample release, has_samples, update_connections, dynamic counts; events with id limits, default and custom ids, try_wait; exhaustive = all sequences of "
-             "2/3 (pub-sub, 8 calls, 16 configurations) and 3/4 (event, 8 calls, 2 configurations) calls after a fixed prefix; `names`: every *_string function with "
+             "1/3 (pub-sub, 8 calls, 16 configurations) and 2/4 (event, 8 calls, 2 configurations) calls after a fixed prefix; `names`: every *_string function with "
              "every code of its enum against the translated table; after every case all handles are dropped and the domain's files are listed (leak oracle). "
              "distinct = distinct output vectors of cases with > 2 ops",
         extra_assumptions=[
